@@ -34,9 +34,14 @@ class Check(object):
         self.drift = []
         self.machinery_errors = []
         self.findings = [f for f in load_findings() if f["property"] == pid]
+        # ./check <ID> --replay <file>: the run recorded in the file (same seed, same tier) is repeated on the current tree and only the
+        # recorded signature is reported
+        self.replay_sig = os.environ.get("VERIF_REPLAY_SIG")
 
     def clean_replays(self):
         import shutil
+        if self.replay_sig:
+            return
         shutil.rmtree(os.path.join(REPLAYS, self.pid), ignore_errors=True)
 
     # --- accounting -------------------------------------------------------
@@ -76,6 +81,20 @@ class Check(object):
 
     # --- finish -------------------------------------------------------------
     def finish(self):
+        if self.replay_sig:
+            for m in self.machinery_errors:
+                sys.stderr.write("MACHINERY ERROR: " + m + "\n")
+            if self.machinery_errors:
+                sys.exit(2)
+            v = self.viol.get(self.replay_sig)
+            if v:
+                print("VIOLATION property=%s replay=%s  # %s [%s] x%d" % (self.pid, os.environ.get("VERIF_REPLAY_FILE", ""), v["summary"], self.replay_sig, v["count"]))
+                sys.exit(1)
+            k = self.known_seen.get(self.replay_sig)
+            if k:
+                print("KNOWN-FINDING: property=%s %s [%s] (seen %d times)" % (self.pid, k["summary"], self.replay_sig, k["count"]))
+            print("replay %s: [%s] not reproduced on this tree (seed %s, tier %s)" % (self.pid, self.replay_sig, self.seed, self.tier))
+            sys.exit(0)
         os.makedirs(EVID, exist_ok=True)
         wall = time.time() - self.t0
         cov = {
